@@ -42,7 +42,16 @@ ALPHA = ["$", "{", "}", "0", "1", "2", "@", "a", "\n", "9"]
 ARGVS = [["s"], ["s", "A"], ["s", "A", "b c", "$1"], ["/p/s.sh", "x", "y", "z", "", "w", "6", "7", "8", "9", "TEN"], []]
 
 
-def run_script(cicada, files, main, args, workdir, timeout=20):
+def run_script(cicada, files, main, args, workdir, timeout=60):
+    r_ = run_script1(cicada, files, main, args, workdir, timeout)
+    if r_[0] == "TIMEOUT":   # a loaded machine, not a verdict: once more with a generous limit
+        for fn in os.listdir(workdir):
+            os.remove(os.path.join(workdir, fn))
+        r_ = run_script1(cicada, files, main, args, workdir, 600)
+    return r_
+
+
+def run_script1(cicada, files, main, args, workdir, timeout):
     env = {"VERIF_TRACE": os.path.join(workdir, "trace"), "HOME": workdir, "XDG_CONFIG_HOME": workdir,
            "PATH": "/usr/bin:/bin", "LANG": "C.UTF-8"}
     for name, text in files.items():
